@@ -9,6 +9,7 @@ import (
 	"sync/atomic"
 	"time"
 
+	"github.com/whatap/golib/lang/pack"
 	wnet "github.com/whatap/golib/net"
 	"github.com/whatap/golib/net/oneway"
 	"verif/harness/vh"
@@ -49,9 +50,18 @@ type scenarioSpec struct {
 	// PreIdleMs: after the client is connected and process() runs, nothing happens for that long (longer
 	// than every internal wait of the client: see internalWaitMs) before the first pack is handed over.
 	// Burst: the packs after the idle period are handed over back to back (no pacing).
-	PreIdleMs int    `json:"pre_idle_ms,omitempty"`
-	Burst     bool   `json:"burst,omitempty"`
-	Seed      uint64 `json:"seed"`
+	PreIdleMs int  `json:"pre_idle_ms,omitempty"`
+	Burst     bool `json:"burst,omitempty"`
+	// Sizes: frame lengths (bytes, exact) the senders cycle through — mixes around the client's internal
+	// buffer sizes; every pack but the last of a cycle goes through SendFlush(false), the last through
+	// SendFlush(true).  Batch: queue mode without process(): the packs of a cycle are Put, then the
+	// application calls SendAndClear (many frames, one flush).  PostBig: once a send has failed, every
+	// further pack makes a frame of that length (larger than the write buffer: the frame after a write
+	// timeout must not be glued onto the connection that carries the fragment).
+	Sizes   []int  `json:"sizes,omitempty"`
+	Batch   bool   `json:"batch,omitempty"`
+	PostBig int    `json:"post_big,omitempty"`
+	Seed    uint64 `json:"seed"`
 }
 
 type observation struct {
@@ -88,12 +98,38 @@ type scen struct {
 	nonce int32
 	gate  chan struct{} // non-nil: the consumer's makeData blocks until it is closed
 	gated int32
+
+	failedAny int32 // a send of this scenario has reported an error
 }
 
 func (sc *scen) backlog() int64 { return atomic.LoadInt64(&sc.nOk) - atomic.LoadInt64(&sc.nMade) }
 
 func (sc *scen) doSend(r *vh.Rng, sender, seq, big int) *sendRec {
-	tp, pcode := genPack(r, sc.nonce, sender, seq, big)
+	return sc.doSendLen(r, sender, seq, big, 0, -1)
+}
+
+// doSendLen: target > 0 asks for a frame of exactly that many bytes; cyc >= 0 is the position in the
+// size cycle (entry point: SendFlush(false), the last of the cycle SendFlush(true)).
+func (sc *scen) doSendLen(r *vh.Rng, sender, seq, big, target, cyc int) *sendRec {
+	var tp *pack.TextPack
+	var pcode int64
+	if target > 0 {
+		seed := r.U64()
+		big = target - 120
+		if big < 0 {
+			big = 0
+		}
+		for try := 0; try < 4; try++ {
+			tp, pcode = genPack(vh.NewRng(seed), sc.nonce, sender, seq, big)
+			d := target - len(refFrame(tp, defaultLicense))
+			if d == 0 || big+d < 0 {
+				break
+			}
+			big += d
+		}
+	} else {
+		tp, pcode = genPack(r, sc.nonce, sender, seq, big)
+	}
 	lic := r.PickStr(licenses)
 	eff := lic
 	if eff == "" {
@@ -111,6 +147,12 @@ func (sc *scen) doSend(r *vh.Rng, sender, seq, big int) *sendRec {
 	default:
 		rec.Entry = "SendFlush(true)"
 		rec.Flush = true
+	}
+	if cyc >= 0 && len(sc.spec.Sizes) > 0 {
+		rec.Entry, rec.Flush = "SendFlush(false)", false
+		if cyc == len(sc.spec.Sizes)-1 {
+			rec.Entry, rec.Flush = "SendFlush(true)", true
+		}
 	}
 	sc.mu.Lock()
 	rec.Sid = sc.nsid
@@ -160,6 +202,7 @@ func (sc *scen) doSend(r *vh.Rng, sender, seq, big int) *sendRec {
 		if err != nil {
 			rec.Err = err.Error()
 			if rec.Class != "enqueue" {
+				atomic.StoreInt32(&sc.failedAny, 1)
 				sc.srv.sendFailed()
 			}
 		}
@@ -261,7 +304,15 @@ func runScenario(spec scenarioSpec) *observation {
 		}
 	}
 	_ = sc.c.Connect()
-	done := sc.c.StartProcessForVerif()
+	var done <-chan struct{}
+	if spec.Batch {
+		// no process(): the application drains the queue itself with SendAndClear
+		ch := make(chan struct{})
+		close(ch)
+		done = ch
+	} else {
+		done = sc.c.StartProcessForVerif()
+	}
 	var acDone chan struct{}
 	if spec.ApplyConfigs > 0 {
 		// the config observer's goroutine: the server list alternates between two spellings of the same collector
@@ -309,7 +360,18 @@ func runScenario(spec scenarioSpec) *observation {
 				} else if spec.Big > 0 && r.Chance(15) {
 					big = spec.Big/2 + r.Intn(spec.Big/2+1)
 				}
-				rec := sc.doSend(r, sender, seq, big)
+				target, cyc := 0, -1
+				if n := len(spec.Sizes); n > 0 {
+					cyc = seq % n
+					target = spec.Sizes[(cyc+sender)%n]
+				}
+				if spec.PostBig > 0 && atomic.LoadInt32(&sc.failedAny) == 1 {
+					target = spec.PostBig
+				}
+				rec := sc.doSendLen(r, sender, seq, big, target, cyc)
+				if spec.Batch && (cyc == len(spec.Sizes)-1 || len(spec.Sizes) == 0) {
+					vh.Guard(func() { _ = sc.c.SendAndClear() })
+				}
 				if spec.IdleMs > 0 {
 					time.Sleep(time.Duration(spec.IdleMs) * time.Millisecond)
 				}
@@ -374,6 +436,9 @@ func runScenario(spec scenarioSpec) *observation {
 			break
 		}
 		rec := sc.doSend(r, spec.Senders, seq, 0)
+		if spec.Batch {
+			vh.Guard(func() { _ = sc.c.SendAndClear() })
+		}
 		if rec.Class == "enqueue" {
 			// queue full: not an attempt, wait for room
 			time.Sleep(20 * time.Millisecond)
